@@ -161,14 +161,14 @@ def build(item, ops=None):
         it["line"] = f"R {it['fmt']} {it['nostd']} {it['chans']} {it['first']} {n} ; {' '.join(map(str, flat))} ; {ops_txt}"
         it["coq"] = (f"RCase {it['fmt']} {it['nostd']} {it['chans']} {it['first']} {F.zlistlist(it['init'])} "
                      "[" + "; ".join(coq_op(o) for o in it["ops"]) + "]")
-        it["cost"] = 3 + sum(len(o) for o in it["ops"]) * 7
+        it["cost"] = 3 + sum(len(o) for o in it["ops"]) * 7 + len(it["init"]) // 8
     else:
         flat = [v for fr in it["frames"] for v in fr]
         it.setdefault("fin", 0)
         it.setdefault("cl", -1)
         it["line"] = f"A {it['fmt']} {it['nostd']} {it['chans']} {it['n']} {it['sq']} {it['k']} {it['fin']} {it['cl']} ; {' '.join(map(str, flat))}"
         it["coq"] = (f"ACase {it['fmt']} {it['nostd']} {it['chans']} {it['n']} {F.zlistlist(it['frames'])} {it['sq']} {it['k']} {it['fin']} {F.zlit(it['cl'])}")
-        it["cost"] = 3 + (it["k"] + 2) * it["chans"] * 7 + it["n"] * it["chans"]
+        it["cost"] = 3 + (it["k"] + 2) * max(1, it["chans"]) * 7 + it["n"] * max(1, it["chans"])
         it["ops"] = []
     return it
 
@@ -257,7 +257,8 @@ def gen_cases(rng, tier, nostd_ok, nostd_adaptor_ok=False):
         signed = name[0] in "iI"
         lo, hi = (-(1 << (b - 1)), (1 << (b - 1)) - 1) if signed else (0, (1 << b) - 1)
         mid = 0 if signed else 1 << (b - 1)
-        for chans in (1, 2):
+        for chans in (0, 1, 2):      # 0 = the bare sample type as a mono frame (to_float_frame = to_float_sample)
+            cw = max(1, chans)
             for nostd in ((0, 1) if nostd_ok else (0,)):
                 r = rng.fork(f"gen{name}_{chans}_{nostd}")
                 n = r.choice([1, 2, 3, 7])
@@ -271,11 +272,11 @@ def gen_cases(rng, tier, nostd_ok, nostd_adaptor_ok=False):
                 ops = []
                 for kind in ("quiet", "full", "quiet", "random"):
                     for _ in range(r.range(2, 3) if quick else r.range(3, 6)):
-                        ops.append(["n"] + [v(kind) for _ in range(chans)])
+                        ops.append(["n"] + [v(kind) for _ in range(cw)])
                     ops.append(["c"])
-                ops += [["w"], ["r"], ["n"] + [v("quiet") for _ in range(chans)], ["c"]]
+                ops += [["w"], ["r"], ["n"] + [v("quiet") for _ in range(cw)], ["c"]]
                 ops.insert(len(ops) // 2, ["k"])
-                items.append(build(dict(kind="R", fmt=10 + c, nostd=nostd, chans=chans, first=r.below(n), init=[[0] * chans for _ in range(n)],
+                items.append(build(dict(kind="R", fmt=10 + c, nostd=nostd, chans=chans, first=r.below(n), init=[[0] * cw for _ in range(n)],
                                         ops=ops, pattern="integer_format_generated_conv", resets=True)))
     # finite source (signal::from_iter) pulled well past exhaustion: the equilibrium frames that a
     # spent source yields must keep entering the window (the RMS decays to 0 within N steps);
@@ -318,6 +319,46 @@ def gen_cases(rng, tier, nostd_ok, nostd_adaptor_ok=False):
                     ops += [["w"], ["c"]]
                     items.append(build(dict(kind="R", fmt=fmt, nostd=nostd, chans=chans, first=r.below(n), init=[[0] * chans for _ in range(n)],
                                             ops=ops, pattern="reset_on_zero_sum_stale_window", resets=True)))
+    # round 3 (coverage closing) -------------------------------------------------------------------
+    # the bare sample type as a mono frame (chans = 0): Rms<f32, _>, Rms<f64, _>, Rms<i16, _>, Rms<u8, _>:
+    # detector histories with resets and a clone, and the signal adaptor over closure and finite sources
+    for fmt in (0, 1, 2, 3):
+        for nostd in ((0, 1) if nostd_ok else (0,)):
+            for j in range(2 if quick else 8):
+                r = rng.fork(f"bare{fmt}_{nostd}_{j}")
+                n = r.choice([1, 2, 3, 7])
+                ops = gen_history(r, fmt, 1, n, ["loudquiet", "nominal", "edge"][(j + fmt) % 3], r.range(n + 3, 3 * n + 12), True)
+                ops.insert(r.range(1, len(ops)), ["k"])
+                ops.insert(r.range(1, len(ops)), ["w"])
+                items.append(build(dict(kind="R", fmt=fmt, nostd=nostd, chans=0, first=r.below(n), init=[[0] for _ in range(n)],
+                                        ops=ops, pattern="bare_sample_frame", resets=True)))
+        for fin in (0, 1):
+            r = rng.fork(f"bare_a{fmt}_{fin}")
+            n = r.choice([1, 2, 3])
+            nfr = r.range(2, 8)
+            frames = [[enc(fmt, sample_value(r, fmt, "nominal", i, nfr))] for i in range(nfr)]
+            kk = nfr + 2 * n
+            items.append(build(dict(kind="A", fmt=fmt, nostd=(1 if (nostd_adaptor_ok and fmt % 2 == fin) else 0), chans=0, n=n, frames=frames,
+                                    sq=int(fmt == 3), k=kk, fin=fin, cl=r.below(kk), pattern="bare_sample_frame_adaptor")))
+    # window lengths beyond every length used above (a length threshold in the detector would hide there):
+    # zero-initialised (verdict applies; the divisor `len as f32` is what differs) and arbitrary non-zero
+    # windows (non-zero squares are evicted from the first push on; bit-exact comparison only); few pushes
+    for j, n in enumerate([65, 129, 257, 1025, 4097] if quick else [65, 100, 129, 255, 257, 513, 1025, 2049, 4097, 16385]):
+        for variant in (0, 1):
+            r = rng.fork(f"largewin{n}_{variant}")
+            fmt = (j + variant) % 2
+            nostd = ((j + 1) % 2) if nostd_ok else 0
+            if variant == 0:
+                init = [[0] for _ in range(n)]
+            else:
+                init = [[enc(fmt, abs(rnd_unit(r)))] for _ in range(n)]
+            ops = []
+            for i in range(r.range(10, 16)):
+                ops.append(["n", enc(fmt, sample_value(r, fmt, "nominal", i, 16))])
+            ops.insert(r.range(2, len(ops)), ["c"])
+            ops += [["r"], ["n", enc(fmt, 0.5)], ["c"]]
+            items.append(build(dict(kind="R", fmt=fmt, nostd=nostd, chans=1, first=r.choice([0, n - 1, r.below(n)]), init=init,
+                                    ops=ops, pattern="large_window", resets=True)))
     return items
 
 
@@ -525,6 +566,10 @@ def main(rep, tier, seed):
                     "case": {k: items[i][k] for k in CASE_KEYS if k in items[i]}, "harness_line": items[i]["line"],
                     "std_harness_observations": outl[i], "rms_only_observations": o,
                     "replay": f"echo '<harness_line>' | {bin_rms_only}"})
+    # round 3: the std cases once more in the release profile (optimised, no debug assertions, no overflow
+    # checks); IEEE arithmetic and the panics of the detector do not depend on the profile
+    std_idx = [i for i, it in enumerate(items) if it["nostd"] == 0]
+    rep.extra["build_profiles"] = F.profile_phase(rep, "c11", [items[i] for i in std_idx], [outl[i] for i in std_idx], profiles=("release",))
     known = [e for e in F.known_findings(PROP) if e.get("kind") == "known" and e.get("id") == "K4"]
     mism = [i for i, c in enumerate(codes) if c & 1]
     verd = [i for i, c in enumerate(codes) if (c & 2) and not (c & 1)]
